@@ -638,7 +638,7 @@ class CalibrationStatus(MessagePayload):
     @brief Device calibration status update.
     """
     MESSAGE_TYPE = MessageType.CALIBRATION_STATUS
-    MESSAGE_VERSION = 0
+    MESSAGE_VERSION = 1
 
     _STRUCT = struct.Struct('<B3x 3f3f f 24x ?3x BBB 5x f3f')
 
@@ -821,7 +821,7 @@ class RelativeENUPositionMessage(MessagePayload):
     GNSS antennas. See @ref GNSSAttitudeOutput instead.
     """
     MESSAGE_TYPE = MessageType.RELATIVE_ENU_POSITION
-    MESSAGE_VERSION = 0
+    MESSAGE_VERSION = 1
 
     INVALID_REFERENCE_STATION = 0xFFFFFFFF
 
